@@ -10,9 +10,9 @@ from ..common import C, NPROC, TMP, Nat, cli_map, run_coq_eval, txt, untxt
 IMPORTS = ["Base.Prelude", "Model.Regex", "Model.Ex", "Model.Obs"]
 
 ALPHABETS = [list("ab "), list("abc,"), list("aé b"), list("日本a "), list("xy_1"), list("aß:c"), list("a\\b ")]
-WORDS = ["foo", "bar", "baz", "a", "ab", "", "x y", "héllo", "日本語", "a,b,c", "key: val", "  lead", "trail  ", "über", "1 2 3", "aaa", "abab", "a\\b", "x\\", "\\\\"]
-REPS = ["", "X", "--", "é", "日本", "a b", "zz", "_", "1"]
-LIT_CHARS = list("abcxy1 ,:_") + ["é", "日", "ß"]
+WORDS = ["foo", "bar", "baz", "a", "ab", "", "x y", "héllo", "日本語", "a,b,c", "key: val", "  lead", "trail  ", "über", "1 2 3", "aaa", "abab", "a\\b", "x\\", "\\\\", "b😀c", "😀"]
+REPS = ["", "X", "--", "é", "日本", "a b", "zz", "_", "1", "😀", "a𠀀"]          # (characters of 1, 2, 3 and 4 bytes)
+LIT_CHARS = list("abcxy1 ,:_") + ["é", "日", "ß", "😀"]
 
 
 def gen_text(rng):
@@ -183,6 +183,8 @@ def gen_case(rng):
         vim += vs if isinstance(vs, list) else [vs]
         kinds.append(kind)
         rel_ok = False       # where the cursor is after an ex command is not part of the property
+    if keys.endswith("<CR>") and rng.random() < 0.25:
+        keys = keys[:-4]          # the end of the argument enters a command line that is still open
     return {"text": text, "cmds": cmds, "keys": keys, "vim": vim, "kinds": kinds, "nullable": NULLABLE[0]}
 
 
